@@ -129,6 +129,8 @@ func main() {
 		replayMain(os.Args[2:])
 	case "check":
 		checkMain(os.Args[2:])
+	case "trace15":
+		trace15Main(os.Args[2:])
 	case "selftest":
 		selftestMain(os.Args[2:])
 	case "fidelity":
